@@ -747,7 +747,7 @@ def _ringmark_rule(chk, prog):
                               "unmarked fiber parked in a channel is freed while it waits)" %
                               (fn.name, q, "; ".join(["bounds the walk by `%s`" % b[1:] for a, b, x in odd] +
                                                      ["has no %s..%s segment" % m for m in missing])))
-    chk.floor(rule, 4, n)
+    chk.floor(rule, 2, n)      # four today; a walk rewritten with a countdown loop is no longer one of these
 
 
 def _markbit_rule(chk, prog):
